@@ -192,7 +192,7 @@ def run_shards(header, cases, checker, tag, shard=250, timeout=900, post=""):
             if not m:
                 errors.append("%s: unparsable %s" % (name, out[-500:])); continue
             pairs = re.findall(r"\(\s*(\d+)(?:%nat)?\s*,\s*(\d+)(?:%nat)?\s*\)", m.group(1))
-            mc = re.search(r"=\s*1(\d{6})\s*:\s*nat", out)
+            mc = re.search(r"=\s*1(\d{6})(?:%nat)?\s*:\s*nat", out)
             if not mc or int(mc.group(1)) != len(pairs):   # never lose a failing case to the pretty-printer
                 errors.append("%s: %s failing cases counted by Coq, %d parsed" % (name, mc.group(1) if mc else "?", len(pairs))); continue
             for i, code in pairs:
@@ -200,7 +200,10 @@ def run_shards(header, cases, checker, tag, shard=250, timeout=900, post=""):
         running = still
         if running:
             time.sleep(0.05)
-    shutil.rmtree(tmp, ignore_errors=True)
+    if errors and os.environ.get("VERIF_DEBUG"):
+        print("run_shards errors:", *errors[:3], sep="\n", file=sys.stderr)
+    if not os.environ.get("VERIF_KEEP"):
+        shutil.rmtree(tmp, ignore_errors=True)
     return bad, errors
 
 
